@@ -154,3 +154,64 @@ Fixpoint orderedb (c : dirty) (d : nodes) (seq : list hash) : bool :=
   end.
 
 Definition inv (s : store) : Prop := closed (disk s) ∧ cache_closed s ∧ consistent s.
+
+(* ---------- histories of the node store ---------- *)
+(* hasher.store -> NodeDatabase.insert (skipped when the hash is already dirty), immediately followed
+   by the leaf callback's Reference calls for that node; InsertBlob for code.  The new dirty node's
+   blob references must be on disk or tracked dirty children; hash addressing: if the hash is already
+   known, it names the same blob. *)
+Definition insert_ok (s : store) (h : hash) (n : dnode) : Prop :=
+  Forall (λ x, is_Some (disk s !! x) ∨ (x ∈ tracked n ∧ is_Some (cache s !! x))) (refs n)
+  ∧ (∀ a, view s !! h = Some a → a = refs n).
+Definition insert_okb (s : store) (h : hash) (n : dnode) : bool :=
+  forallb (λ x, bool_decide (is_Some (disk s !! x))
+                || (bool_decide (x ∈ tracked n) && bool_decide (is_Some (cache s !! x)))) (refs n)
+  && match view s !! h with Some a => bool_decide (a = refs n) | None => true end.
+Definition cache_insert (s : store) (h : hash) (n : dnode) : store :=
+  match cache s !! h with
+  | Some _ => s                                             (* "If the node's already cached, skip" *)
+  | None => Store (disk s) (<[h := n]> (cache s))
+  end.
+
+(* NodeDatabase.reference(child, parent) on a parent that is already dirty: a dirty child that is
+   not yet an external child becomes tracked; anything else is skipped ("node pulled from disk").
+   The code tests membership in the external-children map only, so a child that is also a hash
+   child inside the node is added again and childs() lists it twice: [again] = true. *)
+Definition cache_reference (s : store) (again : bool) (child parent : hash) : store :=
+  match cache s !! parent, cache s !! child with
+  | Some n, Some _ =>
+    if again || bool_decide (child ∉ tracked n)
+    then Store (disk s) (<[parent := DNode (child :: tracked n) (refs n)]> (cache s))
+    else s
+  | _, _ => s
+  end.
+
+(* What can happen to the store:
+     OInsert / OReference  trie commits filling the dirty cache,
+     OCommit r seq         NodeDatabase.Commit(r) ran to the end: all puts on disk, then uncache,
+     OFail r seq k         a batch.Write returned an error after k puts had reached the disk:
+                           Commit returns the error, nothing is uncached, the process goes on,
+     OCrash r seq k        the process died after k puts had reached the disk: the dirty cache is
+                           gone, the node restarts on the disk as it is. *)
+Inductive op :=
+| OInsert (h : hash) (n : dnode)
+| OReference (again : bool) (child parent : hash)
+| OCommit (r : hash) (seq : list hash)
+| OFail (r : hash) (seq : list hash) (k : nat)
+| OCrash (r : hash) (seq : list hash) (k : nat).
+Definition op_ok (s : store) (o : op) : Prop :=
+  match o with
+  | OInsert h n => insert_ok s h n
+  | OReference _ _ _ => True
+  | OCommit r seq | OFail r seq _ | OCrash r seq _ => run (cache s) r seq
+  end.
+Definition step (s : store) (o : op) : store :=
+  match o with
+  | OInsert h n => cache_insert s h n
+  | OReference again c p => cache_reference s again c p
+  | OCommit r seq => after_commit s seq
+  | OFail r seq k => Store (crash s seq k) (cache s)
+  | OCrash r seq k => Store (crash s seq k) ∅
+  end.
+Fixpoint hist_ok (s : store) (ops : list op) : Prop :=
+  match ops with [] => True | o :: tl => op_ok s o ∧ hist_ok (step s o) tl end.
